@@ -92,9 +92,6 @@ def run(rep, tier, replay):
         r1, r16 = ts[1].rss * 1024, ts[sizes[-1]].rss * 1024
         table[" ".join(map(str, key))] = [ts[k].rss for k in sizes]
         rep.add("rss_series")
-        if r16 > r1 * 1.25 + 16 * MiB:
-            rep.violation("peak RSS grows with the input: %s: %d KiB at 1x, %d KiB at 4x" % (key, ts[1].rss, ts[sizes[-1]].rss),
-                          dict(kind="rss", cls="rss-growth", series=list(map(str, key)), rss_kib=[ts[k].rss for k in sizes]))
         W = ts[sizes[-1]].case.W
         # linear bound from the totals the run logs itself (Start event)
         start = json.loads(open(ts[sizes[-1]].trace).readline())
@@ -103,6 +100,12 @@ def run(rep, tier, replay):
         else:
             enc = 4 * (start["bs"] * 100000 + 50) + start["bs"] * 100000 + 2 * MiB
             lin = W * enc + start["tout"] * (start["bs"] * 100000 * 1.2) + start["tin"] * start["ig"]
+        # how many slots a run really fills at the same time depends on the schedule (measured: 51-90 MiB for the same input),
+        # so the 4x run is compared with the larger of the base run and the saturation level computed from the logged totals
+        if r16 > max(r1, lin) * 1.25 + 16 * MiB:
+            rep.violation("peak RSS grows with the input: %s: %d KiB at 1x, %d KiB at 4x (saturation level %d KiB)" %
+                          (key, ts[1].rss, ts[sizes[-1]].rss, int(lin / 1024)),
+                          dict(kind="rss", cls="rss-growth", series=list(map(str, key)), rss_kib=[ts[k].rss for k in sizes]))
         if r16 > 1.5 * lin + 32 * MiB:
             rep.violation("peak RSS above the linear bound: %s: %d KiB, bound %d KiB" % (key, ts[sizes[-1]].rss, int((1.5 * lin + 32 * MiB) / 1024)),
                           dict(kind="rss", cls="rss-bound", series=list(map(str, key)), rss_kib=ts[sizes[-1]].rss))
@@ -111,6 +114,6 @@ def run(rep, tier, replay):
     rep.sample({"rss_series": list(table.items())[:3]})
     rep.cov["exhaustive"] = False
     rep.cov["unconfirmed_model_counterexample"] = [m[0] for m in mbad]
-    rep.assumptions += ["ru_maxrss is read by the hook at Uninit; tolerances: the 4x input may use 1.25x + 16 MiB of the base run (the base input already saturates all slots), and 1.5x + 32 MiB of the logged linear bound"]
+    rep.assumptions += ["ru_maxrss is read by the hook at Uninit; tolerances: the 4x input may use 1.25x + 16 MiB of max(base run, saturation level computed from the logged slot totals), and 1.5x + 32 MiB of that level; leaks proper are decided by the heap check at Uninit"]
     if mbad and not rep.violations:
         raise vlib.Infra("model counterexample(s) not reproduced on the binary: %s" % [m[0] for m in mbad])
